@@ -76,7 +76,9 @@ func genUnknownField(t *rapid.T, flags map[string]bool) []byte {
 	case 2:
 		return append(wTag(nil, num, 1), 1, 2, 3, 4, 5, 6, 7, 8)
 	case 3:
-		return wBytes(nil, num, rapid.SliceOfN(rapid.Byte(), 0, 5).Draw(t, "ub"))
+		// (the length prefix is a varint like any other: it may be padded too)
+		ub := rapid.SliceOfN(rapid.Byte(), 0, 5).Draw(t, "ub")
+		return append(wVarintPadded(wTag(nil, num, 2), uint64(len(ub)), genPad(t)), ub...)
 	default:
 		flags["group"] = true
 		g := wTag(nil, num, 3)
